@@ -11,7 +11,8 @@ PROCESS_TRAIT = "processor::Process"
 GET_TRAIT = "selection::Get"
 BOX_PROCESS = "std::boxed::Box<dyn processor::Process>"
 LOOK = ("Try>::branch", "Try::branch", "Clone>::clone", "Deref>::deref", "DerefMut>::deref_mut",
-        "AsRef>::as_ref", "Borrow>::borrow")
+        "AsRef>::as_ref", "Borrow>::borrow", "AsMut>::as_mut", "BorrowMut>::borrow_mut",
+        "convert::AsRef::as_ref", "convert::AsMut::as_mut", "borrow::Borrow::borrow", "borrow::BorrowMut::borrow_mut")
 
 
 def is_box_process(ty):
